@@ -22,6 +22,9 @@ type GenParams struct {
 	TrimKinds    []string
 	CompactKinds []string
 	SingleVer    int // 0 = vary, else fixed version for the whole history (size trims)
+	IxProbe      bool
+	ROPct        int // percentage of reopens that are read-only
+	IxProbeExtra int
 }
 
 func pick[T any](rng *rand.Rand, xs []T) T { return xs[rng.Intn(len(xs))] }
@@ -42,7 +45,7 @@ type genState struct {
 
 func (g *genState) add(op Op) { g.h.Ops = append(g.h.Ops, op) }
 
-func (g *genState) drawOpts() *OptSpec {
+func (g *genState) drawOpts(first bool) *OptSpec {
 	o := &OptSpec{Rollover: pick(g.rng, g.p.Rollovers)}
 	if g.p.SingleVer != 0 {
 		o.NewVer = g.p.SingleVer
@@ -66,6 +69,9 @@ func (g *genState) drawOpts() *OptSpec {
 		}
 	}
 	o.AutoSync = g.rng.Intn(6) == 0
+	if !first && g.rng.Intn(100) < g.p.ROPct {
+		o.RO = true
+	}
 	return o
 }
 
@@ -172,7 +178,7 @@ func genHistory(id int, seed int64, p GenParams) *History {
 	if rng.Intn(3) == 0 {
 		g.newver = 1
 	}
-	g.add(Op{Op: "open", O: g.drawOpts()})
+	g.add(Op{Op: "open", O: g.drawOpts(true)})
 	g.open = true
 	total := p.WPublish + p.WDelete + p.WDeleteMulti + p.WReopen + p.WGC + p.WSync + p.WTrim + p.WCompact
 	for step := 0; step < p.Steps; step++ {
@@ -197,6 +203,9 @@ func genHistory(id int, seed int64, p GenParams) *History {
 			g.add(Op{Op: "delete", S: g.delSet(), Multi: true})
 		case r < p.WPublish+p.WDelete+p.WDeleteMulti+p.WReopen:
 			g.add(Op{Op: "close"})
+			if p.IxProbe {
+				g.add(Op{Op: "ixprobe", Var: p.IxProbeExtra, Arg: rng.Int63()})
+			}
 			if p.RmIndex && rng.Intn(3) == 0 {
 				if rng.Intn(2) == 0 {
 					g.add(Op{Op: "rmindex"})
@@ -210,7 +219,7 @@ func genHistory(id int, seed int64, p GenParams) *History {
 					g.add(Op{Op: "migrate", Arg: h.Ops[len(h.Ops)-1].Arg})
 				}
 			}
-			g.add(Op{Op: "open", O: g.drawOpts()})
+			g.add(Op{Op: "open", O: g.drawOpts(false)})
 		case r < p.WPublish+p.WDelete+p.WDeleteMulti+p.WReopen+p.WGC:
 			g.add(Op{Op: "gc", Arg: int64(rng.Intn(2)) * 3600e9})
 		case r < p.WPublish+p.WDelete+p.WDeleteMulti+p.WReopen+p.WGC+p.WSync:
@@ -243,9 +252,20 @@ func genHistory(id int, seed int64, p GenParams) *History {
 			if rng.Intn(5) == 0 {
 				op.Arg = g.t + 50000 // everything
 			}
+			if op.Kind == "both" {
+				// Compact(age): updates before now-age, deletes before now-2*age; keep 2*age inside the range of times
+				if rng.Intn(2) == 0 || len(g.times) == 0 {
+					op.Arg = g.t/2/100000*100000 + 50000
+				} else {
+					op.Arg = g.times[rng.Intn(len(g.times))]/2/100000*100000 + 50000
+				}
+			}
 			g.add(op)
 		}
 	}
 	g.add(Op{Op: "close"})
+	if p.IxProbe {
+		g.add(Op{Op: "ixprobe", Var: p.IxProbeExtra, Arg: rng.Int63()})
+	}
 	return h
 }
